@@ -9,6 +9,7 @@ func init() {
 	vRegister("H_C01_sign", H_C01_sign)
 	vRegister("H_C01_countersign", H_C01_countersign)
 	vRegister("H_C01_hashenv", H_C01_hashenv)
+	vRegister("H_C01_countersign_attached", H_C01_countersign_attached)
 	vRegister("H_C01_from_cose_key", H_C01_from_cose_key)
 }
 
@@ -203,6 +204,60 @@ func H_C01_countersign() {
 		return
 	}
 	vAssert("countersign: verifies after the wire round trip", back.Verify(kp.verifier, parent, ext) == nil)
+	vReach("end")
+}
+
+// countersignatures carried in the parent's unprotected header (single object, list of 1..4)
+// survive the parent's wire round trip and still verify against the decoded parent
+func H_C01_countersign_attached() {
+	c07Start(1)
+	kp := mkC01Pair("k", 0)
+	ext := c07External()
+	msg := &Sign1Message{
+		Headers:   Headers{Protected: ProtectedHeader{HeaderLabelAlgorithm: AlgorithmES256}, Unprotected: UnprotectedHeader{}},
+		Payload:   vBlob("payload"),
+		Signature: vBlobN("psig", 1, 64),
+	}
+	n := 1 + vChoose("n", 4)
+	var list []*Countersignature
+	for i := 0; i < n; i++ {
+		cs := &Countersignature{Headers: Headers{Protected: ProtectedHeader{}, Unprotected: UnprotectedHeader{}}}
+		if err := cs.Sign(vRand(), kp.signer, msg, ext); err != nil {
+			vReach("sign failed")
+			return
+		}
+		list = append(list, cs)
+	}
+	label := []int64{HeaderLabelCounterSignatureV2, HeaderLabelCounterSignature}[vChoose("label", 2)]
+	single := n == 1 && vChoose("single", 2) == 1
+	if single {
+		msg.Headers.Unprotected[label] = list[0]
+	} else {
+		msg.Headers.Unprotected[label] = list
+	}
+	wire, err := msg.MarshalCBOR()
+	vAssert("attached: the countersigned message serialises", err == nil)
+	if err != nil {
+		return
+	}
+	var back Sign1Message
+	derr := back.UnmarshalCBOR(wire)
+	vLogErr("decode", derr)
+	vAssert("attached: the library decodes the countersigned message it produced", derr == nil)
+	if derr != nil {
+		return
+	}
+	var got []*Countersignature
+	switch v := back.Headers.Unprotected[label].(type) {
+	case *Countersignature:
+		got = []*Countersignature{v}
+	case []*Countersignature:
+		got = v
+	}
+	vAssert("attached: every countersignature comes back", len(got) == n)
+	for _, cs := range got {
+		vAssert("attached: countersignature verifies against the decoded parent", cs.Verify(kp.verifier, &back, ext) == nil)
+	}
 	vReach("end")
 }
 
